@@ -10,6 +10,10 @@ CONSTANTS Stoppers = {"s1"}
  DoubleSend = FALSE
  SharedWaitGroup = FALSE
  Replayable = FALSE
-INVARIANTS C10_start_only_inactive C10_active_after_start C10_after_stops C10_failed_start_clean C10_nopanic C10_no_stuck_stop C11_no_stuck_request
+ WriteClients = {"c1"}
+ WritingOutlivesRun = FALSE
+ MaxPolls = 1
+ PollOnce = FALSE
+INVARIANTS C10_start_only_inactive C10_active_after_start C10_after_stops C10_writing_stopped C10_failed_start_clean C10_nopanic C10_no_stuck_stop C11_no_stuck_request
 PROPERTIES C11_answered
 CHECK_DEADLOCK FALSE
